@@ -290,6 +290,27 @@ pub fn judge_includes_and_threads(c: &mut Choices, st: &mut Stats) -> Result<boo
     Ok(true)
 }
 
+/// two programs that differ only in how their code is arranged behave alike: the same value or
+/// a failure in both, on eight generic argument trees, with at least one value among them or a
+/// failure in both everywhere
+pub fn same_behaviour_on_generic_arguments(a: &V, b: &V) -> bool {
+    let argsets: Vec<V> = vec![
+        nil(),
+        list(vec![int(1)]),
+        list(vec![int(1), int(2), int(3)]),
+        list(vec![list(vec![int(1), int(2)]), int(3), list(vec![int(4), int(5), int(6)])]),
+        list(vec![int(10), int(20), int(30), int(40), int(50), int(60)]),
+        list(vec![V::A(vec![0x11; 32]), int(7), list(vec![int(1), int(2), int(3)]), int(0)]),
+        list(vec![int(0), int(0), int(0), int(0)]),
+        list(vec![list(vec![list(vec![int(9)]), int(8)]), list(vec![int(7), int(6)]), int(5), int(4), int(3)]),
+    ];
+    argsets.iter().all(|x| match (sut::run_consensus(a, x, 2_000_000_000), sut::run_consensus(b, x, 2_000_000_000)) {
+        (Ok(p), Ok(q)) => p == q,
+        (Err(_), Err(_)) => true,
+        _ => false,
+    })
+}
+
 pub fn judge(text: &str, d: Dialect, history: &[Op], st: &mut Stats) -> Result<bool, Viol> {
     let base = match compile_fresh(text, d) {
         Ok(o) => o,
@@ -595,7 +616,8 @@ impl Prop for C05Prop {
                 xb.sort();
                 let modern_cse = matches!(v.case.get("dialect").and_then(|d| d.as_str()), Some("cl23" | "cl23.1" | "cl24"));
                 let src0 = v.case.get("source").and_then(|s| s.as_str()).unwrap_or("");
-                if modern_cse && ah.len() == bh.len() && xa == xb && crate::props::c01::source_repeats_a_call(src0) {
+                let _ = (&xa, &xb);
+                if modern_cse && crate::props::c01::source_repeats_a_call(src0) && same_behaviour_on_generic_arguments(&a, &b) {
                     return Some("cl23-cse-binding-order-follows-the-fresh-names");
                 }
             }
